@@ -68,10 +68,15 @@ def fake_host(kind):
         m.__dict__.update(real.__dict__)
         m.__dict__.update(over)
         return m
-    return (proxy(real_errno, errorcode=errs),
-            proxy(real_signal, Signals=enum.IntEnum('Signals', sigs)),
+    # the platform's named constants (errno.ETIMEDOUT, signal.SIGBUS, socket.AF_INET6, socket.SOCK_STREAM ...)
+    econst = {n: i for i, n in errs.items()}
+    sconst = dict(sigs)
+    kconst = dict(afs)
+    kconst.update(socks)
+    return (proxy(real_errno, errorcode=errs, **econst),
+            proxy(real_signal, Signals=enum.IntEnum('Signals', sigs), **sconst),
             proxy(real_socket, AddressFamily=enum.IntEnum('AddressFamily', afs),
-                  SocketKind=enum.IntEnum('SocketKind', socks), SOL_SOCKET=sol))
+                  SocketKind=enum.IntEnum('SocketKind', socks), SOL_SOCKET=sol, **kconst))
 
 
 def import_under(host):
@@ -118,6 +123,19 @@ def renderings(rnd):
             out[('af:' + name, af)] = param(name, [af, 1, 5, 6], 0)
     for st in range(1, 6):
         out[('sock', st)] = param('BSC_socket', [2, st, 5, 6], 1)
+    # every BSD decoder under a few argument patterns and the error numbers on which platforms disagree
+    from .pairing import AUDIT
+    pats = [[0, 0, 0, 0], [1, 1, 1, 1], [1, 0, 1, 0], [0, 1, 0, 1], [3, 1 << 40, 77, 5]]
+    for name in sorted(n for n, a in AUDIT.items() if n.startswith('BSC_') and a.get('cls')):
+        dom = AUDIT[name]['dom']
+        for pi, pat in enumerate(pats):
+            S = [pat[j] if dom[j] is None else (dom[j][0] if isinstance(dom[j], list) and dom[j] else 0x20006601 if dom[j] == 'ioctl' else 0)
+                 for j in range(4)]
+            for err in (0, 4, 11, 35, 36, 45, 60, 102, 110):
+                try:
+                    out[('all:%s:%d' % (name, pi), err)] = pr.render(name, S, [err, 1, 2, 3], [b'/p']) or 'none'
+                except Exception as ex:
+                    out[('all:%s:%d' % (name, pi), err)] = 'RAISED:' + type(ex).__name__
     for lvl in (1, 6, 0xffff):
         for name in ('BSC_setsockopt', 'BSC_getsockopt'):
             out[('level:' + name, lvl)] = param(name, [3, lvl, 0x80, 6], 1)
